@@ -436,6 +436,19 @@ func (s *levelsController) levelTargets() targets {
 	if t.baseLevel == 0 {
 		t.baseLevel = 1
 	}
+
+	// The base level must not lie below a non-empty level. The size-based choice above can do
+	// that when the deeper levels shrink (deletes compacted away, DropPrefix) or when data was
+	// placed on a higher level directly (StreamWriter.PrepareIncremental): an L0 -> Lbase
+	// compaction would then jump over that level, and since subcompact only looks below Lbase
+	// for overlap, the delete/expired markers it drops would uncover older versions stored on
+	// the level it jumped over. Compact into the first non-empty level instead.
+	for i := 1; i < t.baseLevel; i++ {
+		if s.levels[i].getTotalSize() > 0 {
+			t.baseLevel = i
+			break
+		}
+	}
 	return t
 }
 
